@@ -9,6 +9,7 @@ import (
 	"github.com/relex/gotils/logger"
 	"github.com/relex/slog-agent/base"
 	"github.com/relex/slog-agent/defs"
+	"github.com/relex/slog-agent/util/vhook"
 )
 
 // sinksByClientNumber is a fix-sized array to hold downstream sinks by client number as array index
@@ -71,6 +72,7 @@ func NewReloadableOrchestrator(downstream base.Orchestrator, initiateReload Init
 // NewSink creates a new reloadable sink for an input source (e.g. incoming TCP connection)
 func (orc *ReloadableOrchestrator) NewSink(clientAddress string, clientNumber base.ClientNumber) base.BufferReceiverSink {
 	newDownstream := orc.downstream.NewSink(clientAddress, clientNumber)
+	vhook.G("rl.newsink.created")
 
 	lockT := orc.downstreamMutex.RLock() // only read-lock since we assume clientNumber is unique and nobody else is accessing it
 	defer orc.downstreamMutex.RUnlock(lockT)
@@ -106,8 +108,10 @@ func (orc *ReloadableOrchestrator) reload() {
 	}
 
 	// wait and then block all ReloadableSink(s)
+	vhook.G("rl.reload.initiated")
 	orc.downstreamMutex.Lock()
 	defer orc.downstreamMutex.Unlock()
+	vhook.G("rl.reload.locked")
 
 	// close sinks created with old configuration and shut down
 	for _, sink := range orc.downstreamSinks {
@@ -131,6 +135,7 @@ func (orc *ReloadableOrchestrator) reload() {
 	}
 	orc.logger.Info("reloaded config")
 	reloadSuccessCounter.Inc()
+	vhook.G("rl.reload.renewed")
 }
 
 // ReloadableSink wraps Orchestrator's BufferReceiverSink to support reloading.
